@@ -152,6 +152,7 @@ func checkC16(c *Ctx) {
 	checkModelsRescanned(c, "C16.R7.models-rescanned", pk)
 	checkRetypeClearsRef(c, "C16.R4.retype-clears-ref", pk)
 	checkCommentsRaw(c, "C16.R8.comments-raw", pk)
+	checkSpecDocFirst(c, "C16.R8.spec-doc-first", pk)
 }
 
 func checkCompositeKinds(c *Ctx, pk *packages.Package) {
